@@ -153,6 +153,25 @@ PROPS = {
                             "the unbuffered case is proved (C18_passthrough_unbuffered)",
                             "F-C18-1: a request-phase redirect or drop is answered with 200 (open finding)"],
     },
+    "C07": {
+        "engines": [{"name": "nopanic", "quick": 6000, "thorough": 400000, "shards": 12}],
+        "nontrivial": lambda l, v: "cfg=ok" in l,
+        "rule": "nopanic: configurations of 1-5 lines built from every directive, action, operator, transformation and "
+                "variable name registered in the running binary (lists read through the verif hook, so new names are picked up), "
+                "88% from mostly-valid templates (all ctl options incl. negative limits, setvar forms, macros over every kind of "
+                "variable incl. JSON/XML/ENV/RULE, regex keys, counts, negations, SecRuleRemoveBy*/UpdateTargetBy*/"
+                "UpdateActionById, SecDefaultAction, markers), the rest wild, 25% with a byte-level mutation (quote, backslash, "
+                "newline, backtick, continuation, NUL, duplicated/deleted byte); then up to 9 API calls in any order with "
+                "urlencoded/JSON/XML/multipart/garbage bodies, response headers/bodies, ErrorLog()/AuditLog() rendering. "
+                "NewWAF and the calls run under recover() with a 5 s watchdog. Non-trivial = the configuration compiled (so "
+                "traffic ran through it); corpus/C07 replays the shapes of past panics first.",
+        "modelled": "proved on models: the body-write slice bound for every (also negative) limit, macro expansion over "
+                    "variables without collection, SecRuleRemoveByMsg over rules without msg, macro compilation totality; the "
+                    "other modelled units are total Lean functions. Units without a model (XML/multipart/JSON parsing, audit "
+                    "formatters, libinjection, third-party operators) are covered by this harness only.",
+        "assumptions": ["a hang is detected by a 5 s wall-clock watchdog (the goroutine cannot be killed)"],
+        "open_statements": ["C07_engine (no panic for every accepted configuration and call sequence) is stated per unit, not as one theorem over the whole library"],
+    },
     "C09": {
         "engines": [_eng("acct", 25000, 800000), _eng("", 10000, 300000)],
         "nontrivial": _eng_nontrivial, "rule": _ENG_RULE + "Profile `acct`: more setvar (+N, -N, assign, delete, macro keys/values), chains, multiMatch.",
